@@ -1,9 +1,14 @@
 /-
 Driver/C02.lean — line-protocol driver for C02 (joins).
 in : {"case": n, "prog": [FrameDef]}
-out: {"case": n, "model": table | null, "spec": table | null, "scope": [violated hypothesis names],
-      "how": {...}}   (model null = the implementation raises; spec null = PySpark rejects the program)
-Pure function of its input lines; evaluates `runImpl` / `runSpec`, the definitions Props/C02.lean is about.
+out: {"case": n, "model": table | null, "spec": table | null, "scope": [violated hypothesis names]}
+      (model null = the implementation raises; spec null = PySpark rejects the program)
+in : {"case": n, "merge": {"existing": [NCte], "ctes": [NCte]}}
+out: {"case": n, "merged": [[name, [names read]]]}     `mergeCtes` (Impl/C02Ctes.lean) with the fresh names "#0", "#1", …
+in : {"case": n, "names": [String]}
+out: {"case": n, "quoted": [String]}                    `quoteName` (Impl/C02Join.lean)
+Pure function of its input lines; evaluates `runImpl` / `runSpec` / `mergeCtes` / `quoteName`, the definitions
+Props/C02.lean is about.
 -/
 import SqlframeModel.Codec.C02
 open Lean Sqlframe
@@ -13,21 +18,56 @@ structure Case where
   prog : List FrameDef
   deriving FromJson
 
+structure MergeIn where
+  existing : List NCte
+  ctes : List NCte
+  deriving FromJson
+
+structure MergeCase where
+  case : Nat
+  merge : MergeIn
+  deriving FromJson
+
+structure NamesCase where
+  case : Nat
+  names : List String
+  deriving FromJson
+
 def optTable : Option Table → Json
   | none => Json.null
   | some T => T.toPlain
 
+def handleProg (c : Case) : String :=
+  let m := runImpl c.prog
+  let s := runSpec c.prog
+  Json.compress (Json.mkObj [
+    ("case", toJson c.case),
+    ("model", optTable m.result),
+    ("spec", optTable s),
+    ("scope", toJson m.flags)])
+
+def handleMerge (c : MergeCase) : String :=
+  let out := mergeCtes (fun k => "#" ++ toString k) c.merge.existing c.merge.ctes
+  Json.compress (Json.mkObj [
+    ("case", toJson c.case),
+    ("merged", toJson (out.map (fun x => (x.name, x.body.refs))))])
+
 def handle (line : String) : String :=
-  match Json.parse line >>= fromJson? (α := Case) with
+  match Json.parse line with
   | .error e => Json.compress (Json.mkObj [("err", toJson s!"bad-input: {e}")])
-  | .ok c =>
-    let m := runImpl c.prog
-    let s := runSpec c.prog
-    Json.compress (Json.mkObj [
-      ("case", toJson c.case),
-      ("model", optTable m.result),
-      ("spec", optTable s),
-      ("scope", toJson m.flags)])
+  | .ok j =>
+    if (j.getObjVal? "merge").isOk then
+      match fromJson? (α := MergeCase) j with
+      | .ok c => handleMerge c
+      | .error e => Json.compress (Json.mkObj [("err", toJson s!"bad-input: {e}")])
+    else if (j.getObjVal? "names").isOk then
+      match fromJson? (α := NamesCase) j with
+      | .ok c => Json.compress (Json.mkObj [("case", toJson c.case), ("quoted", toJson (c.names.map quoteName))])
+      | .error e => Json.compress (Json.mkObj [("err", toJson s!"bad-input: {e}")])
+    else
+      match fromJson? (α := Case) j with
+      | .ok c => handleProg c
+      | .error e => Json.compress (Json.mkObj [("err", toJson s!"bad-input: {e}")])
 
 partial def loop (h : IO.FS.Stream) (out : IO.FS.Stream) : IO Unit := do
   let line ← h.getLine
